@@ -428,3 +428,23 @@ def c15(ctx, api):
     return acc.result(RULE_PINNED + '; every case is evaluated repeatedly with independently rebuilt maps and fresh compilations; '
                       'outcomes must be equal, as multisets only at arrays the specification marks as unordered (for unpinned cases: '
                       'equal up to array order)', extra={'repetitions': reps})
+
+
+# --------------------------------------------------------------------- C14
+ALL_KINDS = ['json', 'int', 'int8', 'int16', 'int32', 'int64', 'uint', 'uint8', 'uint16', 'uint32', 'uint64',
+             'float32', 'float64', 'decimal']
+
+
+@plan('C14')
+def c14(ctx, api):
+    acc = Acc()
+    thorough = ctx['tier'] == 'thorough'
+    nvals = 9 if thorough else 7
+    kinds = '{' + ', '.join('"%s"' % k for k in ALL_KINDS) + '}'
+    kb = kinds[:-1] + ', "jsonexp", "jsondot"}' if thorough else '{"json", "int", "uint8", "int64", "float32", "float64", "decimal", "jsonexp", "jsondot"}'
+    text = cfg(constants={'Emit': 'TRUE', 'Prop': '"C14"', 'Big': tb(thorough), 'KindsA': kinds, 'KindsB': kb})
+    st, summ = api['run_tlc_to_harness'](ctx, 'carrier', 'GenCarrier', text, timeout=3000)
+    acc.add('GenCarrier: %d x %d values, 14 x %d x 3 carrier assignments, 53 expressions'
+            % (nvals, nvals, 16 if thorough else 9), st, summ)
+    return acc.result(RULE_PINNED + '; assignments whose Go kind cannot hold a value exactly are skipped (counted in cases_skipped)',
+                      extra={'cases_skipped_carrier_cannot_hold_value': sum(s.get('skipped', 0) for s in [summ])})
